@@ -157,7 +157,7 @@ def run(model, col, tier):
 
     # the condition may be held in a local (`needsSignSuffix = operationType == "i32" and bi.OpCode not in signAgnostic`):
     # tests are read with single-assignment locals in place (the type tag and the signedness flag stay names)
-    env63 = {k_: v_ for k_, v_ in _le63(vb, allow_impure=True).items() if k_ not in ("operationType", "unsigned", mn_) and not isinstance(v_, ast.JoinedStr)}
+    env63 = {k_: v_ for k_, v_ in _le63(vb, model, GEN, allow_impure=True).items() if k_ not in ("operationType", "unsigned", mn_) and not isinstance(v_, ast.JoinedStr)}
     suffix_if = []
     cands63 = [n for n in ast.walk(vb) if isinstance(n, ast.If) and any(isinstance(x, ast.AugAssign) and isinstance(x.target, ast.Name) and x.target.id == mn_ for s in n.body for x in ast.walk(s))
                and "operationType" in unparse(_rs63(n.test, env63))]
@@ -264,7 +264,10 @@ def run(model, col, tier):
         guard_members = set()
         for n in ast.walk(vb):
             if isinstance(n, ast.If) and any(isinstance(s, ast.Assign) and unparse(s.targets[0]) == tname for s in n.body):
-                for s_ in ast.walk(n.test):
+                # (a set of opcodes named by a local or a module-level constant is read in place)
+                from ..sem import local_env as _le64, resolve as _rs64
+
+                for s_ in ast.walk(_rs64(n.test, _le64(vb, model, GEN, allow_impure=True))):
                     if isinstance(s_, ast.Attribute) and s_.attr.startswith("CMP_"):
                         guard_members.add(s_.attr)
                 if "IsComparison" in unparse(n.test) or ">> 8" in unparse(n.test):
